@@ -439,6 +439,39 @@ func checkEnveloped(r *Report, p *Prog) {
 			})
 			r.Check(reset, rule, fmt.Sprintf("%s: the tree handed to SignEnveloped carries no earlier Signature", p.FnName(fn)), p.InstrPos(e.at.I), "Signature reset to nil before Element()", "the element tree is built while a Signature from an earlier signing may still be stored in the object: Element() embeds it, the new signature digests it, and the emitted element (which carries only the new Signature) does not verify")
 		}
+		// the tree is built twice — once to be digested, once to be emitted with the Signature embedded — so Element() must
+		// be a function of the object alone: no reading of the clock, no randomness, no package-level state the library
+		// writes (a zero IssueInstant rendered as "now" differs between the two builds)
+		if el := p.Func("saml", s.typ, "Element"); el != nil {
+			why := ""
+			written := moduleWrittenGlobals(p)
+			for _, f := range helperRegion(p, el, 2) {
+				for _, b := range f.Blocks {
+					for _, in := range b.Instrs {
+						for _, op := range in.Operands(nil) {
+							if op == nil || *op == nil {
+								continue
+							}
+							g, ok := (*op).(*ssa.Global)
+							if !ok || g.Pkg == nil || !strings.HasPrefix(g.Pkg.Pkg.Path(), modPath) {
+								continue
+							}
+							_, isW := written[g]
+							if g.Name() == "TimeNow" || g.Name() == "RandReader" || g.Name() == "Clock" || isW {
+								why = firstNonEmpty(why, "reads "+g.Name()+" at "+p.InstrPos(in))
+							}
+						}
+						if c, ok := in.(*ssa.Call); ok && c.Call.StaticCallee() != nil {
+							switch c.Call.StaticCallee().String() {
+							case "time.Now", "crypto/rand.Read", "math/rand.Int":
+								why = firstNonEmpty(why, "calls "+c.Call.StaticCallee().String()+" at "+p.InstrPos(in))
+							}
+						}
+					}
+				}
+			}
+			r.Check(why == "", rule, fmt.Sprintf("%s.Element: the tree is a function of the object alone", s.typ), p.Pos(el.Pos()), "no clock, randomness or library-written state is read by the builder", "the builder "+why+": the tree that is digested and the tree that is emitted are two builds and can differ, so the emitted signature does not verify")
+		}
 		// success return only after the store; error of GetSigningContext propagated
 		for _, ret := range fc.Returns() {
 			if isNilConst(Resolve(ret.Results[0])) && sigStore != nil {
